@@ -106,11 +106,31 @@ def rule_esc(prog, rep):
 def rule_block(prog, rep):
     rep.floor("C06.BLOCK", 5)
     ev = Evaluator(prog, "apollo_parser")
-    ws = char_set(ev, "apollo_parser::cst::node_ext::unescape_block_string::is_whitespace")
-    if ws == {0x20, 0x09}:
-        rep.instance("C06.BLOCK", "block string WhiteSpace = {space, tab}")
-    else:
-        rep.finding("C06.BLOCK", "apollo_parser::cst::node_ext::unescape_block_string::is_whitespace", "whitespace", "block-string WhiteSpace is %s, the spec says {space, tab}" % sorted(ws), None)
+    # the WhiteSpace predicate(s) of BlockStringValue(): every `fn(char) -> bool` nested in (or a
+    # private helper of) unescape_block_string, whatever it is called
+    ubs = prog.fn(r"^apollo_parser::cst::node_ext::unescape_block_string$")
+    from ..core import private_helpers_of
+    cands = [g for g in prog.fns.values() if g.crate == "apollo_parser" and g.kind in ("fn", "assoc_fn")
+             and (g.name.startswith(ubs.name + "::") or g.uid in private_helpers_of(prog, [ubs]))
+             and (g.d.get("sig_in") or []) == ["char"] and (g.d.get("sig_out") or "") == "bool"]
+    # std's notion of whitespace (Unicode White_Space / ASCII whitespace incl. form feed) is not the
+    # grammar's: any use of it in the block-string algorithm changes which lines count as blank and
+    # how much indentation is removed
+    UNI = r"str>::(trim|trim_start|trim_end|trim_left|trim_right|split_whitespace|split_ascii_whitespace|trim_ascii\w*)$|char::methods::<impl char>::(is_whitespace|is_ascii_whitespace)$|u8>::is_ascii_whitespace$"
+    uni = []
+    for g in [ubs] + [prog.fns[u] for u in private_helpers_of(prog, [ubs])] + [g for g in prog.fns.values() if g.name.startswith(ubs.name + "::")]:
+        uni += [(g, c) for c in g.live_calls() if re.search(UNI, c.name)]
+    for g, c in uni:
+        rep.finding("C06.BLOCK", "apollo_parser::cst::node_ext::unescape_block_string::is_whitespace", "whitespace",
+                    "the block-string algorithm uses `%s` (std's whitespace: Unicode White_Space or ASCII incl. form feed); BlockStringValue() counts only space and tab" % c.name.split("::")[-1], c.loc())
+    if not cands and not uni:
+        raise Undecided("unescape_block_string: no `fn(char) -> bool` whitespace predicate found among its nested / private helper functions")
+    for g in cands:
+        ws = char_set(ev, g.name)
+        if ws == {0x20, 0x09}:
+            rep.instance("C06.BLOCK", "block string WhiteSpace = {space, tab}")
+        else:
+            rep.finding("C06.BLOCK", "apollo_parser::cst::node_ext::unescape_block_string::is_whitespace", "whitespace", "block-string WhiteSpace (`%s`) is %s, the spec says {space, tab}" % (g.name.split("::")[-1], sorted(ws)), None)
     tq = prog.const(r"^apollo_parser::cst::node_ext::TRIPLE_QUOTE$")["value"]
     etq = prog.const(r"^apollo_parser::cst::node_ext::ESCAPED_TRIPLE_QUOTE$")["value"]
     if tq == '"\\"\\"\\""' and etq == '"\\\\\\"\\"\\""':
